@@ -22,6 +22,9 @@ def sim_kill(pid, sig):
     if p is None or p.state == 'reaped':
         raise ProcessLookupError(3, 'No such process')
     sim.ev('os.kill', me.name if me else None, p.name, sig)
+    if me is not None and sig != 0:
+        p.last_signal_from = {'thread': me.name, 'role': me.role, 'proc': me.proc.name, 'tag': getattr(me.proc, 'tag', None),
+                              'same_proc': me.proc is p, 'sig': sig}
     if p.state == 'zombie':
         return
     if sig == 0:
